@@ -390,14 +390,17 @@ func dumpValue(sb *strings.Builder, v reflect.Value, seen map[uintptr]int, depth
 			sb.WriteString("nil")
 			return
 		}
+		// pointers are dumped by what they point to; "seen" holds the pointers on the current
+		// path only (cycle detection), so the text does not depend on map iteration order
 		p := v.Pointer()
-		if id, ok := seen[p]; ok {
-			fmt.Fprintf(sb, "&#%d", id)
+		if _, ok := seen[p]; ok {
+			sb.WriteString("&<cycle>")
 			return
 		}
-		seen[p] = len(seen)
-		fmt.Fprintf(sb, "&#%d=", seen[p])
+		seen[p] = 1
+		sb.WriteString("&")
 		dumpValue(sb, v.Elem(), seen, depth+1)
+		delete(seen, p)
 	case reflect.Interface:
 		if v.IsNil() {
 			sb.WriteString("nil")
